@@ -84,6 +84,11 @@ inductive MsgO where
   | reply (ids : List Id) (kept : Bool)
   /-- `MSG_EXCEPTION`; `kept` as for a reply -/
   | exc (kept : Bool)
+  /-- the front part of a message whose `_unbox` fails further on: these references were taken over by proxies -/
+  | recvd (ids : List Id)
+  /-- the rest of that message: references the receiver never got to (the failing one included); `isReq`: the message
+  was a request, so an exception reply follows; `kept` as for a reply -/
+  | unrecvd (ids : List Id) (isReq : Bool) (kept : Bool)
   deriving DecidableEq, Repr
 
 /-- messages peer → owner -/
@@ -127,6 +132,9 @@ inductive Op where
   | back (k : Id) (echo : Bool)
   /-- the proxy of `k` is finalized (`BaseNetref.__del__` runs) -/
   | finalize (k : Id)
+  /-- the peer's `_unbox` of the next message is going to fail after `j` of its references (the class of the next one
+  cannot be inspected, the round trip times out, ...): split the message into what will be received and what will not -/
+  | splitHead (j : Nat)
   /-- the peer serves the next message -/
   | deliverO2P
   /-- the owner serves the next message -/
@@ -146,6 +154,8 @@ inductive Out where
   | closed
   /-- the message could not be serialized: the sender gets the exception, a requester an exception reply -/
   | unsendable
+  /-- the receiver could not unbox the message: a requester gets an exception reply, a waiter the exception -/
+  | unreceived
   deriving DecidableEq, Repr
 
 /-- the owner dispatches one request / reply (`_dispatch`) -/
@@ -167,11 +177,33 @@ def handleP (s : St) : MsgP → Out × St
     -- `_box(res)` registered `ks`, `_send` raised, `_send_exception` answers instead
     (.unsendable, { s with tbl := failedBox Gen.Box.failedSendReleases s.tbl ks, o2p := s.o2p ++ [.exc true] })
 
+/-- one release notice of 1 for every reference the receiver never took over (`Connection._release_unreceived`: a bare
+netref that dies at once) -/
+def releasesFor (ks : List Id) : List MsgP := ks.map (fun k => .del k 1)
+
+/-- what the receiver sends for the unreceived part of a message: `released` (generated constant `failedUnboxReleases`) -/
+def unreceivedTail (released : Bool) (ks : List Id) (isReq : Bool) : List MsgP :=
+  (if released then releasesFor ks else []) ++ (if isReq then [.reply] else [])
+
 /-- the peer dispatches one request / reply -/
 def handleO (s : St) : MsgO → Out × St
   | .req ids => (.ok, { s with px := recvAll s.px ids, p2o := s.p2o ++ [.reply] })
   | .reply ids _ => (.ok, { s with px := recvAll s.px ids })
   | .exc _ => (.ok, s)
+  | .recvd ids => (.ok, { s with px := recvAll s.px ids })
+  | .unrecvd ids isReq _ =>
+    (.unreceived, { s with p2o := s.p2o ++ unreceivedTail Gen.Box.failedUnboxReleases ids isReq })
+
+/-- `_unbox` of the next message will fail after `j` references -/
+def splitHead (s : St) (j : Nat) : Out × St :=
+  match s.o2p with
+  | .req ids :: rest =>
+    if j < ids.length then (.ok, { s with o2p := .recvd (ids.take j) :: .unrecvd (ids.drop j) true false :: rest })
+    else (.disabled, s)
+  | .reply ids kept :: rest =>
+    if j < ids.length then (.ok, { s with o2p := .recvd (ids.take j) :: .unrecvd (ids.drop j) false kept :: rest })
+    else (.disabled, s)
+  | _ => (.disabled, s)
 
 def deliverP2O (s : St) : Out × St :=
   match s.p2o with
@@ -206,6 +238,7 @@ def step (s : St) (op : Op) : Out × St :=
   | .fetchBad ks => (.ok, { s with p2o := s.p2o ++ [.fetchBad ks] })
   | .back k echo => passBack s k echo
   | .finalize k => finalize s k
+  | .splitHead j => splitHead s j
   | .deliverO2P => deliverO2P s
   | .deliverP2O => deliverP2O s
   | .close => (.ok, closeAll s)
@@ -261,6 +294,8 @@ def MsgO.refs (k : Id) : MsgO → Nat
   | .req ids => ids.count k
   | .reply ids _ => ids.count k
   | .exc _ => 0
+  | .recvd ids => ids.count k
+  | .unrecvd ids _ _ => ids.count k
 
 /-- references to `k` in flight to the peer -/
 def refsO (k : Id) : List MsgO → Nat
@@ -325,6 +360,8 @@ inductive AOp where
   /-- the `j`-th outstanding `AsyncResult` expires before its reply is delivered (`set_expiry`, `timed`, a timeout) -/
   | expire (j : Nat)
   | deliverO2P
+  /-- the peer's `_unbox` of the next message fails after `j` of its references -/
+  | deliverFail (j : Nat)
   | deliverP2O
   | close
   deriving DecidableEq, Repr
@@ -360,6 +397,17 @@ def discard (a : App) (ids : List Id) (waiters : List Bool) : AOut × App :=
   (.base (step a.s .deliverO2P).1,
    { s := run (step a.s .deliverO2P).2 ((dying ids a.held a.results).map .finalize),
      held := a.held, results := a.results, waiters := waiters })
+
+/-- the operations of the machine a failed `_unbox` of the next message amounts to: split it, receive the front part,
+the proxies it created that nobody else holds die as the partial result is thrown away, then the releases for the part
+never received (and the exception reply) -/
+def failOps (taken dying : List Id) (j : Nat) : List Op :=
+  [.splitHead j, .deliverO2P] ++ dying.map .finalize ++ [.deliverO2P]
+
+def failDelivery (a : App) (taken : List Id) (results : List (List Id)) (waiters : List Bool) : AOut × App :=
+  (.base .unreceived,
+   { s := run a.s (failOps taken (dying taken a.held a.results) taken.length),
+     held := a.held, results := results, waiters := waiters })
 
 def appStep (a : App) : AOp → AOut × App
   | .send ks => lift a (.send ks) a.held a.results a.waiters
@@ -408,6 +456,19 @@ def appStep (a : App) : AOp → AOut × App
       | false :: ws => lift a .deliverO2P a.held (a.results ++ [[]]) ws
       | [] => (.notModelled, a)
     | .exc false :: _ => lift a .deliverO2P a.held a.results a.waiters
+  | .deliverFail j =>
+    if a.s.closed then (.base .closed, a) else
+    match a.s.o2p with
+    | .req ids :: _ =>
+      if j < ids.length then failDelivery a (ids.take j) a.results a.waiters else (.base .disabled, a)
+    | .reply ids true :: _ =>
+      if j < ids.length then
+        match a.waiters with
+        | true :: ws => failDelivery a (ids.take j) a.results ws
+        | false :: ws => failDelivery a (ids.take j) (a.results ++ [[]]) ws
+        | [] => (.notModelled, a)
+      else (.base .disabled, a)
+    | _ => (.base .disabled, a)
   | .deliverP2O => lift a .deliverP2O a.held a.results a.waiters
   | .close => lift a .close [] [] []
 
